@@ -12,7 +12,7 @@ CLAIMED = {
 
 CLAIMED["C04"] = dict(
    text="Bounded model checking of the real RollCommon / RollCoC / RollFate SSA with every die a symbolic value (Roll replaced by the contract C05 establishes): for all sides, keep/drop counts, min/max clamps (64-bit symbols) and all dice outcomes, the dice shown in the detail text are exactly the rolled (clamped) dice, the kept count follows the rule, kept dice are the extreme ones and the total is the sum of the kept dice; CoC result equals the best/worst candidate of the shown digits. The detail text is handled as a symbolic rope and parsed by the oracle.",
-   note="times <= 3 (quick) / 4 (thorough), CoC extra dice <= 2/3, magnitudes <= 2^40 so the true sum cannot overflow, min<=max when both given. WoD and Double Cross round loops and the VM-level parameter validation are covered by the C01/C07 harnesses only as far as stated there. Trusted: Roll contract (C05), gosymx rope model of fmt/strconv, solvers.",
+   note="times <= 3 (quick) / 4 (thorough), CoC extra dice <= 2/3, magnitudes <= 2^40 so the true sum cannot overflow, min<=max when both given. VM-level parameter validation (VH_C04_params): 15 dice forms with parameters over {64-bit symbol, float, string, null}; legal-accept side limited to values <= 1000. Outcomes of WoD and Double Cross round loops are not covered (their accounting is in C07). Trusted: Roll contract (C05), gosymx rope model of fmt/strconv, solvers.",
    technique="symbolic execution of go/ssa + SMT (wrapped-Int LIA), function summary for Roll",
    ref="DESIGN.md §5 C04")
 CLAIMED["C15"] = dict(
@@ -79,9 +79,9 @@ CLAIMED["C02"] = dict(
    ref="DESIGN.md §5 C02")
 
 CLAIMED["C07"] = dict(
-   text="Bounded checking of the budget mechanisms with the engine's deterministic work meter (interpreter steps + bytes copied): 17 adversarial programs (endless loops, recursion, self-referential computed value, huge dice counts, doubling containers and strings, exploding pools) under budgets {200, 30000} and dice modes {random, min, max} must end within the step limit, and when they end without error the counter is within the budget and the measured work is at most 6000 x budget + 3M; 14 straight-line programs: the counter covers every instruction and every generator output; capacity boundaries (8192 instructions, 512 elements for literals / ranges / concatenation / repetition, 1000 stack slots, parse budget) as concrete programs: complete value or error, never a truncated result.",
-   note="Programs are enumerated (concrete); what is decided per program is an engine-measured bound, not a solver verdict over symbolic programs - the weakest of the checks in solver terms. Dice are fixed low faces (roll-log stub). Hang = 120M interpreter steps without result, confirmed natively with a 20 s timeout. Known finding: exploding dice never terminate in max-mode.",
-   technique="symbolic-execution engine used as a deterministic work meter; bounded exploration of enumerated adversarial programs",
+   text="Bounded checking of the budget mechanisms by symbolic execution with a step limit: 21 adversarial programs (endless loops, unbounded and exponential recursion, self-referential computed value, huge dice counts incl. counts that would wrap the counter, a function reading a costly computed value in a loop, doubling containers and strings, huge range, exploding pools) under budgets {200, 30000} and dice modes {random, min, max} must end within the step limit with the budget error or a value, and the number of dice actually rolled never exceeds the budget; 14 straight-line programs: the counter covers every instruction and every generator output, also across function / computed-value sub-VMs, and is never negative; capacity boundaries (8192 instructions at top level and inside function / computed bodies with the term count a solver-chosen symbol around the limit, 512 elements for literals / ranges / concatenation / repetition, 1000 stack slots, parse budget, recursion) : complete value or error, never a truncated result.",
+   note="Programs are enumerated (concrete); what is decided per program is a bound observed on the symbolic run (only sizes / counts are solver symbols), not a verdict over symbolic programs - the weakest of the checks in solver terms. Dice are fixed low faces (roll-log stub). Hang = 120M interpreter steps without result, confirmed natively with a 20 s timeout. Known finding: exploding dice never terminate in max-mode.",
+   technique="symbolic execution of go/ssa with a step limit over enumerated adversarial programs; sizes and counts as solver symbols",
    ref="DESIGN.md §5 C07")
 
 CLAIMED["C10"] = dict(
@@ -97,20 +97,20 @@ CLAIMED["C09"] = dict(
    ref="DESIGN.md §5 C09")
 
 CLAIMED["C11"] = dict(
-   text="Decided as non-interference, not by exploring schedules: 15 API entry-point scenarios (each NewVM + Run + every observer + JSON snapshot on a fresh VM, covering syntax errors in two languages, seeded and unseeded dice, bound methods, functions, computed values, templates, dict methods, builtins, random array methods, st, default-sides dice, run-time errors) are executed symbolically with every memory cell reachable from a package-level variable of dicescript and x/exp/rand marked; any plain (unlocked, non-atomic) store to a marked cell on any explored path is a finding. W = {} implies that VMs sharing no values can only meet on immutable data, hence no data race and isolated results. Each finding is confirmed natively by running the scenario on two goroutines under go test -race.",
+   text="Decided as non-interference, not by exploring schedules: 15 API entry-point scenarios (each NewVM + Run + every observer + JSON snapshot on a fresh VM, covering syntax errors in two languages, seeded and unseeded dice, bound methods, functions, computed values, templates, dict methods, builtins, random array methods, st, default-sides dice, run-time errors) are executed symbolically with every memory cell reachable from a package-level variable of dicescript and x/exp/rand marked; any plain (unlocked, non-atomic) store to a marked cell on any explored path is a finding. W = {} implies that VMs sharing no values can only meet on immutable data, hence no data race and isolated results. Each finding is confirmed natively by running the scenario on two goroutines under go test -race. Second harness (sequential non-interference): for every ordered pair of the scenarios on two VMs, everything observable of the finished VM A is unchanged after VM B ran and A's next evaluation equals that of a VM that ran alone; sync.Pool is modelled as a LIFO free list so pooled buffers are seen as shared.",
    note="Sufficient, not necessary (a benign shared write would be reported). Interleavings are not explored; atomics and stores under a mutex are treated as synchronised. The generator stub records state writes of PCGSource. Known findings recorded: parseErrorLanguage is process-global (also the root of C19's cross-VM language leak), unseeded VMs share randSource.",
    technique="symbolic execution with shared-memory footprint tracking; race detector only as replay confirmation",
    ref="DESIGN.md §5 C11")
 
 CLAIMED["C17"] = dict(
-   text="Relational bounded model checking: 24 programs (arithmetic, variables, containers, templates, control flow, functions, computed values, every dice family, syntax errors, identifiers that begin like the custom trigger) with integer variables as 64-bit solver symbols are evaluated plain and with inert extension points in all 7 combinations of {never-matching regex and stream dice incl. a parser that reads ahead and declines, identity load/store hooks, identity detail rewriters}; value, error text, process text, rest / matched text and variables must be identical (SMT equality over the symbols). Matching case: a custom syntax registered as regex and as stream parser, in 10 programs: handler runs once per evaluation of the operand, receives exactly the matched text, result used by copy.",
+   text="Relational bounded model checking: 24 programs (arithmetic, variables, containers, templates, control flow, functions, computed values, every dice family, syntax errors, identifiers that begin like the custom trigger) with integer variables as 64-bit solver symbols are evaluated plain and with inert extension points in all 7 combinations of {never-matching regex and stream dice incl. a parser that reads ahead and declines, identity load/store hooks, identity detail rewriters}; value, error text, process text, rest / matched text and variables must be identical (SMT equality over the symbols). Matching case: a custom syntax registered as regex and as stream parser, in 10 programs: handler (which overwrites its groups argument after reading it) runs once per evaluation of the operand, receives exactly the matched text every time, result used by copy.",
    note="regexp is executed natively on concrete text. Programs are enumerated; symbolic source text with custom dice is not explored. Known finding recorded: custom dice are rejected inside look-ahead-guarded constructs such as array literals.",
    technique="relational symbolic execution (plain vs instrumented VM) + SMT",
    ref="DESIGN.md §5 C17")
 
 CLAIMED["C14"] = dict(
-   text="Bounded model checking of the calculation-process text as a symbolic string: 24 arithmetic expressions over dice terms of every family (dice = symbolic Roll-contract values), integer literals and a multi-byte identifier bound to a symbolic integer, with spacing / tab / line-break variants, run through the real parser, VM and makeDetailStr; the text is a rope whose numbers are solver terms; the oracle deletes the [..] annotations, evaluates the remaining arithmetic over those terms and requires equality with the result, and requires every XdY annotation's value to equal the sum of the kept dice it lists (SMT verification conditions over all dice outcomes). GetDetailText twice gives the same text and leaves result, variables and generator log unchanged.",
-   note="Expressions are enumerated (24); annotations of CoC / Fate / WoD / DC terms are only required to sit next to the right value, their inner text makes no claim. Abbreviated annotations ([..] longer than 400 bytes) cannot occur at these sizes. Host rewrite hooks are identity (C17).",
+   text="Bounded model checking of the calculation-process text as a symbolic string: 31 arithmetic expressions (incl. nested and chained dice) over dice terms of every family (dice = symbolic Roll-contract values), integer literals and a multi-byte identifier bound to a symbolic integer, with spacing / tab / line-break variants, run through the real parser, VM and makeDetailStr; the text is a rope whose numbers are solver terms; the oracle deletes the [..] annotations, evaluates the remaining arithmetic over those terms and requires equality with the result, and requires every XdY annotation's value to equal the sum of the kept dice it lists (SMT verification conditions over all dice outcomes). GetDetailText twice gives the same text and leaves result, variables and generator log unchanged.",
+   note="Expressions are enumerated (31); annotations of CoC / Fate / WoD / DC terms are only required to sit next to the right value, their inner text makes no claim. Abbreviated annotations ([..] longer than 400 bytes) cannot occur at these sizes. Host rewrite hooks are identity (C17).",
    technique="symbolic execution with symbolic strings (ropes) + SMT over dice symbols",
    ref="DESIGN.md §5 C14")
 
